@@ -84,6 +84,14 @@ def _single_exit(stmts, ret):
             new = ast.If(test=st.test, body=_single_exit(bod, ret), orelse=_single_exit(st.orelse, ret))
             out.append(ast.copy_location(new, st))
             return out
+        if isinstance(st, ast.Try) and _contains_return([st]) and not _contains_return(st.body) and not _contains_return(st.orelse) and \
+                not st.finalbody and st.handlers and all(_always_returns(h.body) for h in st.handlers):
+            # every handler leaves the function: what follows the try statement runs exactly when no handler ran, which is
+            # the `else` clause (exceptions raised there are not caught by the handlers either)
+            handlers = [ast.copy_location(ast.ExceptHandler(type=h.type, name=h.name, body=_single_exit(h.body, ret)), h) for h in st.handlers]
+            new = ast.Try(body=st.body, handlers=handlers, orelse=_single_exit(list(st.orelse) + list(rest), ret), finalbody=[])
+            out.append(ast.copy_location(new, st))
+            return out
         if isinstance(st, (ast.For, ast.While, ast.Try, ast.With, ast.AsyncFor, ast.AsyncWith)) and _contains_return([st]):
             raise _NotInlinable("return inside a loop / try / with")
         if hasattr(ast, "Match") and isinstance(st, ast.Match) and _contains_return([st]):
@@ -185,6 +193,7 @@ class Inliner:
         self.counter = 0
         self.report = []
         self.helpers = {}      # (cls or None, name) -> _Helper
+        self.nested = {}       # id(enclosing FunctionDef) -> {name: _Helper}: local functions that are only ever called
 
     def run(self):
         if self.known is None:
@@ -196,7 +205,10 @@ class Inliner:
                 for sub in st.body:
                     if isinstance(sub, ast.FunctionDef) and (st.name + "." + sub.name) not in self.known:
                         self._register(sub, st.name)
-        if not self.helpers:
+        for node in ast.walk(self.tree):
+            if isinstance(node, ast.FunctionDef):
+                self._register_nested(node)
+        if not self.helpers and not self.nested:
             return self.tree
         for _ in range(4):
             changed = False
@@ -231,6 +243,27 @@ class Inliner:
             if isinstance(st, ast.ClassDef):
                 st.body = [x for x in st.body if keep(x, st.name)] or [ast.Pass()]
 
+    def _register_nested(self, outer):
+        """local functions defined directly in the body of `outer` and used only by calling them by name"""
+        for st in outer.body:
+            if not isinstance(st, ast.FunctionDef):
+                continue
+            name = st.name
+            uses = [n for n in ast.walk(outer) if isinstance(n, ast.Name) and n.id == name]
+            called = {id(c.func) for c in ast.walk(outer) if isinstance(c, ast.Call) and isinstance(c.func, ast.Name) and c.func.id == name}
+            inside = {id(n) for n in ast.walk(st)}
+            if any(id(u) not in called or id(u) in inside for u in uses):
+                continue        # passed around as a value, rebound, or recursive
+            if sum(1 for x in ast.walk(outer) if isinstance(x, ast.FunctionDef) and x.name == name) != 1:
+                continue
+            try:
+                h = _Helper(st, None)
+            except _NotInlinable as err:
+                self.report.append("local function %s.%s not inlined: %s" % (outer.name, name, err))
+                continue
+            # free names of the local function must not be rebound by the inlined body's own renaming: they are left alone
+            self.nested.setdefault(id(outer), {})[name] = h
+
     def _register(self, fn, cls):
         try:
             self.helpers[(cls, fn.name)] = _Helper(fn, cls)
@@ -238,8 +271,10 @@ class Inliner:
             self.report.append("%s%s not inlined: %s" % (cls + "." if cls else "", fn.name, err))
 
     # -- call resolution ---------------------------------------------------
-    def _helper_of(self, call, cls, self_name):
+    def _helper_of(self, call, cls, self_name, outer=None):
         f = call.func
+        if isinstance(f, ast.Name) and outer is not None and f.id in self.nested.get(id(outer), {}):
+            return self.nested[id(outer)][f.id], None
         if isinstance(f, ast.Name) and (None, f.id) in self.helpers:
             return self.helpers[(None, f.id)], None
         if isinstance(f, ast.Attribute) and isinstance(f.value, ast.Name) and cls is not None:
@@ -249,8 +284,10 @@ class Inliner:
                 return self.helpers[(cls, f.attr)], None
         return None, None
 
-    def _bind(self, h, call, receiver):
-        """-> (prelude statements, substitution map, rename map) or raises"""
+    def _bind(self, h, call, receiver, alias=None):
+        """-> (prelude statements, substitution map, rename map) or raises.  alias: parameters that are handed a plain
+        name and whose final value is assigned back to that same name by the calling statement (in/out parameters): they
+        are the caller's variable."""
         if any(isinstance(a, ast.Starred) for a in call.args) or any(k.arg is None for k in call.keywords):
             raise _NotInlinable("star arguments at the call")
         self.counter += 1
@@ -283,8 +320,17 @@ class Inliner:
                 assigned.add(sub.id)
         prelude, subst = [], {}
         rename = {n: n + tag for n in h.locals}
+        alias = dict(alias or {})
+        for p, target in list(alias.items()):
+            a = given.get(p)
+            others = [given[q] for q in params if q != p]
+            if not (isinstance(a, ast.Name) and a.id == target) or any(isinstance(x, ast.Name) and x.id == target for o in others for x in ast.walk(o)):
+                del alias[p]
         for p in params:
             a = given[p]
+            if p in alias:
+                rename[p] = alias[p]
+                continue
             if p not in assigned and _is_simple_arg(a):
                 subst[p] = a
                 rename.pop(p, None)
@@ -292,9 +338,9 @@ class Inliner:
                 prelude.append(ast.Assign(targets=[ast.Name(id=rename[p], ctx=ast.Store())], value=copy.deepcopy(a), lineno=call.lineno))
         return prelude, subst, rename, tag
 
-    def _expand_stmt_helper(self, h, call, receiver):
+    def _expand_stmt_helper(self, h, call, receiver, alias=None):
         """-> (statements to put in front, expression that replaces the call)"""
-        prelude, subst, rename, tag = self._bind(h, call, receiver)
+        prelude, subst, rename, tag = self._bind(h, call, receiver, alias)
         sub = _Subst(rename, subst)
         if h.expr is not None:
             e = sub.visit(copy.deepcopy(h.expr))
@@ -333,10 +379,41 @@ class Inliner:
                     continue
                 for sub in ast.walk(e):
                     if isinstance(sub, ast.Call):
-                        h, recv = self._helper_of(sub, cls, self_name)
+                        h, recv = self._helper_of(sub, cls, self_name, fn)
                         if h is not None and (h.cls, h.name) != me:
                             found.append((sub, h, recv))
             return found
+
+        def comprehension_as_loop(st):
+            """x = [E for T in I if C] / {K: V for ...} / {E for ...} with one generator  ->  x = []; for T in I: if C: x.append(E)
+            (done only where the element expression calls a helper that has statements of its own)"""
+            if not (isinstance(st, ast.Assign) and len(st.targets) == 1 and isinstance(st.targets[0], ast.Name) and
+                    isinstance(st.value, (ast.ListComp, ast.SetComp, ast.DictComp)) and len(st.value.generators) == 1 and not st.value.generators[0].is_async):
+                return None
+            comp, g, name = st.value, st.value.generators[0], st.targets[0].id
+            elems = [comp.key, comp.value] if isinstance(comp, ast.DictComp) else [comp.elt]
+            if not any(h.expr is None for _, h, _ in calls_in(elems + list(g.ifs))):
+                return None
+            if any(isinstance(n, ast.Name) and n.id == name for e in elems + list(g.ifs) + [g.iter] for n in ast.walk(e)):
+                return None
+            load = lambda: ast.Name(id=name, ctx=ast.Load())
+            if isinstance(comp, ast.DictComp):
+                init = ast.Dict(keys=[], values=[])
+                add = ast.Assign(targets=[ast.Subscript(value=load(), slice=comp.key, ctx=ast.Store())], value=comp.value, lineno=st.lineno)
+            elif isinstance(comp, ast.ListComp):
+                init = ast.List(elts=[], ctx=ast.Load())
+                add = ast.Expr(value=ast.Call(func=ast.Attribute(value=load(), attr="append", ctx=ast.Load()), args=[comp.elt], keywords=[]))
+            else:
+                init = ast.Call(func=ast.Name(id="set", ctx=ast.Load()), args=[], keywords=[])
+                add = ast.Expr(value=ast.Call(func=ast.Attribute(value=load(), attr="add", ctx=ast.Load()), args=[comp.elt], keywords=[]))
+            body = [ast.copy_location(add, st)]
+            for cond in reversed(g.ifs):
+                body = [ast.copy_location(ast.If(test=cond, body=body, orelse=[]), st)]
+            loop = ast.For(target=g.target, iter=g.iter, body=body, orelse=[], lineno=st.lineno)
+            out = [ast.copy_location(ast.Assign(targets=[ast.Name(id=name, ctx=ast.Store())], value=init, lineno=st.lineno), st), ast.copy_location(loop, st)]
+            for o in out:
+                ast.fix_missing_locations(o)
+            return out
 
         def in_nested_scope(root, target):
             """is `target` inside a comprehension / lambda below root?"""
@@ -358,7 +435,56 @@ class Inliner:
                     return n
             return R().visit(root)
 
+        def in_out_params(st, call, h):
+            """`a, b = helper(a, x, b)` with the helper ending in `return p, q` for its parameters p, q: {p: 'a', q: 'b'}"""
+            if not (isinstance(st, ast.Assign) and st.value is call and len(st.targets) == 1 and h.expr is None and h.body):
+                return None
+            last = h.body[-1]
+            n_returns = sum(1 for x in h.body for y in ast.walk(x) if isinstance(y, ast.Return))
+            if not isinstance(last, ast.Return) or last.value is None or n_returns != 1:
+                return None
+            tgt, val = st.targets[0], last.value
+            pairs = []
+            if isinstance(tgt, ast.Name) and isinstance(val, ast.Name):
+                pairs = [(tgt, val)]
+            elif isinstance(tgt, ast.Tuple) and isinstance(val, ast.Tuple) and len(tgt.elts) == len(val.elts):
+                pairs = list(zip(tgt.elts, val.elts))
+            out = {}
+            for t, v in pairs:
+                if isinstance(t, ast.Name) and isinstance(v, ast.Name) and v.id in h.params and v.id not in out:
+                    out[v.id] = t.id
+            return out or None
+
+        def identity_assign(st):
+            """`a, b = a, b` left behind by in/out parameters"""
+            if isinstance(st, ast.Assign) and len(st.targets) == 1:
+                t, v = st.targets[0], st.value
+                if isinstance(t, ast.Name) and isinstance(v, ast.Name) and t.id == v.id:
+                    return True
+                if isinstance(t, ast.Tuple) and isinstance(v, ast.Tuple) and len(t.elts) == len(v.elts) and t.elts and \
+                        all(isinstance(a, ast.Name) and isinstance(b, ast.Name) and a.id == b.id for a, b in zip(t.elts, v.elts)):
+                    return True
+            return False
+
+        def simple_arms(st):
+            """both arms of the if consist of jumps and constant assignments only (cheap to duplicate, no call sites doubled)"""
+            def simple(x):
+                if isinstance(x, (ast.Continue, ast.Break, ast.Pass)):
+                    return True
+                if isinstance(x, ast.Return):
+                    return x.value is None or isinstance(x.value, (ast.Constant, ast.Name))
+                if isinstance(x, ast.Assign):
+                    return isinstance(x.value, ast.Constant) and all(isinstance(t, ast.Name) for t in x.targets)
+                return False
+            return len(st.body) + len(st.orelse) <= 3 and all(simple(x) for x in st.body + st.orelse)
+
         def rewrite_stmt(st):
+            loop_form = comprehension_as_loop(st)
+            if loop_form is not None:
+                changed[0] = True
+                return rewrite_block(loop_form)
+            if isinstance(st, ast.FunctionDef):
+                return [st]         # a local function: its own body is not rewritten here
             # nested blocks first
             for fld in ("body", "orelse", "finalbody"):
                 b = getattr(st, fld, None)
@@ -392,9 +518,12 @@ class Inliner:
                     if h.expr is None and (nested or not hoistable):
                         raise _NotInlinable("statement helper called inside a comprehension / loop test")
                     if h.expr is None and isinstance(st, (ast.If, ast.While)):
-                        # a predicate with a body of its own stays a function: rules that judge predicates interpret it as one
-                        raise _NotInlinable("multi-statement predicate called in a condition")
-                    prelude, e = self._expand_stmt_helper(h, call, recv)
+                        # a predicate with a body of its own stays a function: rules that judge predicates interpret it as one.
+                        # A "predicate" that can raise is a validation step: its raise sites belong to the calling function.
+                        raises = any(isinstance(x, ast.Raise) for x in ast.walk(h.fn))
+                        if not (raises and isinstance(st, ast.If) and st.test is call):
+                            raise _NotInlinable("multi-statement predicate called in a condition")
+                    prelude, e = self._expand_stmt_helper(h, call, recv, in_out_params(st, call, h))
                     if (nested or not hoistable) and prelude:
                         raise _NotInlinable("argument binding needed inside a comprehension / loop test")
                 except _NotInlinable as err:
@@ -402,6 +531,52 @@ class Inliner:
                     # make sure this call is not looked at again
                     break
                 ast.copy_location(e, call)
+                if isinstance(st, ast.Assign) and st.value is call and isinstance(e, ast.Name) and e.id.startswith("ret_i") and \
+                        all(isinstance(x, (ast.Name, ast.Attribute, ast.Tuple, ast.List)) for t in st.targets for x in [t]) and \
+                        not any(isinstance(n, ast.Name) and n.id == e.id and isinstance(n.ctx, ast.Load) for p_ in prelude for n in ast.walk(p_)):
+                    # x = helper(...): every `return v` of the helper assigns x directly (no intermediate name with several definitions)
+                    retname = e.id
+
+                    class _ToTargets(ast.NodeTransformer):
+                        def visit_Assign(self, n):
+                            if len(n.targets) == 1 and isinstance(n.targets[0], ast.Name) and n.targets[0].id == retname:
+                                tg = st.targets[0] if len(st.targets) == 1 else None
+                                if isinstance(tg, ast.Tuple) and isinstance(n.value, ast.Tuple) and len(tg.elts) == len(n.value.elts) and \
+                                        not any(isinstance(e_, ast.Starred) for e_ in tg.elts + n.value.elts):
+                                    written = {ast.unparse(t_) for t_ in tg.elts}
+                                    read = {ast.unparse(x) for v_ in n.value.elts for x in ast.walk(v_) if isinstance(x, (ast.Name, ast.Attribute, ast.Subscript))}
+                                    if not (written & read):
+                                        # a, b = (x, y) with independent sides: one assignment per component
+                                        return [ast.copy_location(ast.Assign(targets=[copy.deepcopy(t_)], value=v_), n) for t_, v_ in zip(tg.elts, n.value.elts)]
+                                return ast.copy_location(ast.Assign(targets=copy.deepcopy(st.targets), value=n.value), n)
+                            return self.generic_visit(n)
+                    changed[0] = True
+                    out_ = []
+                    for p_ in prelude:
+                        r_ = _ToTargets().visit(p_)
+                        out_.extend(r_ if isinstance(r_, list) else [r_])
+                    return pre + [ast.fix_missing_locations(x) for x in out_]
+                if isinstance(st, ast.If) and st.test is call and isinstance(e, ast.Name) and e.id.startswith("ret_i") and h.expr is None and \
+                        _always_returns(h.body) and simple_arms(st):
+                    # `if helper(...): A else: B` with small arms: every `return v` of the helper continues with `if v: A else: B`
+                    # (A or B directly for a constant v), which is the control flow before the helper was extracted
+                    retname = e.id
+
+                    class _Thread(ast.NodeTransformer):
+                        def visit_Assign(self, n):
+                            if len(n.targets) == 1 and isinstance(n.targets[0], ast.Name) and n.targets[0].id == retname:
+                                if isinstance(n.value, ast.Constant):
+                                    arm = st.body if n.value.value else st.orelse
+                                    return [copy.deepcopy(x) for x in arm] or [ast.copy_location(ast.Pass(), n)]
+                                return ast.copy_location(ast.If(test=n.value, body=[copy.deepcopy(x) for x in st.body],
+                                                                orelse=[copy.deepcopy(x) for x in st.orelse]), n)
+                            return self.generic_visit(n)
+                    out_ = []
+                    for p_ in prelude:
+                        r_ = _Thread().visit(p_)
+                        out_.extend(r_ if isinstance(r_, list) else [r_])
+                    changed[0] = True
+                    return pre + [ast.fix_missing_locations(x) for x in out_]
                 if isinstance(st, ast.Expr) and st.value is call:
                     # a bare call statement: the body replaces it
                     changed[0] = True
@@ -415,9 +590,22 @@ class Inliner:
                 parts = [getattr(st, f) for f in ("value", "test", "iter") if getattr(st, f, None) is not None]
                 pre.extend(prelude)
                 changed[0] = True
+            if pre and identity_assign(st):
+                return pre
             return pre + [st]
 
         fn.body = rewrite_block(fn.body)
+        local = self.nested.get(id(fn), {})
+        if local:
+            still = {n.id for n in ast.walk(fn) if isinstance(n, ast.Name) and isinstance(n.ctx, ast.Load)}
+            kept = []
+            for st in fn.body:
+                if isinstance(st, ast.FunctionDef) and st.name in local and st.name not in still:
+                    self.report.append("local function %s.%s inlined at every call site" % (fn.name, st.name))
+                    del local[st.name]
+                    continue
+                kept.append(st)
+            fn.body = kept or [ast.Pass()]
         return changed[0]
 
 
